@@ -12,6 +12,8 @@ CONSTANTS
   HSTRETCHES <- HStretchQ
   HROTS <- HRotsQ
   HU0R <- HU0RAll
+  HSCALES <- HScalesAll
+  MTOUCHES <- MTouchAll
   HLEN = 2
   PHASEDICTS <- PhaseDicts
   NVER = 2
